@@ -35,7 +35,10 @@ theorem c03_source_facts :
     subseq ["atomic.StoreInt32", "s.flvConsumptions.RemoveAndCloseAll", "s.flvMuxer.Close", "s.rtpDemuxer.Close", "s.consumptions.RemoveAndCloseAll"] IpcHub.Gen.progStreamClose = true ∧
     subseq ["cs.l.Lock", "atomic.LoadInt32", "c.Close", "cs.Add", "cs.l.Unlock", "go c.consume"] IpcHub.Gen.progStartConsume = true ∧
     subseq ["cs.Remove", "c.Close"] IpcHub.Gen.progStopConsume = true ∧
-    subseq ["defer func", "c.stream.StopConsume", "c.consumer.Close", "c.recvQueue.Pop"] IpcHub.Gen.progConsConsume = true := by
+    subseq ["defer func", "c.stream.StopConsume", "c.consumer.Close", "c.recvQueue.Pop"] IpcHub.Gen.progConsConsume = true ∧
+    -- removals take the table mutex FIRST: no fast path reads the counter or the map outside it
+    IpcHub.Gen.progRemove.take 2 = ["m.l.Lock", "defer m.l.Unlock"] ∧
+    IpcHub.Gen.progRemoveAndCloseAll.take 2 = ["m.l.Lock", "defer m.l.Unlock"] := by
   decide
 
 /-- the worker-protocol configuration of the current source tree -/
